@@ -26,12 +26,18 @@ package ratelimiting
 //@   tags C09
 //@   opt locks=caller
 //@   opt go=ignore
-//@   requires c != nil && heldw(c.lock) && c.pendingEvents >= 0
+//@   requires c != nil && heldw(c.lock) && c.pendingEvents >= 0 && ctx != nil
 //@   modifies c.pendingEvents, c.signals
 //@   ensures heldw(c.lock)
 //@   ensures [C09.fire.pending] old(c.pendingEvents) > 0 ==> (c.pendingEvents == 0 && c.signals == old(c.signals) + 1)
 //@   ensures [C09.fire.nothing] old(c.pendingEvents) == 0 ==> (c.pendingEvents == 0 && c.signals == old(c.signals))
 //@   at before go#0 ghost c.signals = c.signals + 1
+
+// the signal hand-off goroutine: offers one signal on ch until the context ends; writes no memory
+//@ func (*coalescing).fireEvent$1
+//@   tags C09
+//@   requires c != nil && ctx != nil
+//@   modifies nothing
 
 //@ func (*coalescing).reset
 //@   tags C09
@@ -54,7 +60,7 @@ package ratelimiting
 
 //@ func (*coalescing).handleTimerFired
 //@   tags C09
-//@   requires c != nil && inv(c)
+//@   requires c != nil && inv(c) && ctx != nil
 //@   ensures inv(c)
 //@   ensures [C09.timer.flush] at(U, c.pendingEvents) == 0 && at(U, c.signals) == at(L, c.signals) + (at(L, c.pendingEvents) > 0 ? 1 : 0)
 //@   ensures [C09.timer.closed] at(U, c.hasTimer.v) == 0 && at(U, c.adds) == at(L, c.adds)
@@ -64,7 +70,7 @@ package ratelimiting
 
 //@ func (*coalescing).handleInputCh
 //@   tags C09
-//@   requires c != nil && inv(c)
+//@   requires c != nil && inv(c) && ctx != nil
 //@   ensures inv(c)
 //@   ensures [C09.input.first] at(L, c.hasTimer.v) == 0 ==> (at(U, c.pendingEvents) == 0 && at(U, c.hasTimer.v) != 0
 //@        && at(U, c.signals) == at(L, c.signals) + (at(L, c.pendingEvents) > 0 ? 1 : 0))
